@@ -635,6 +635,45 @@ static void gen_scalar(void)
     }
 }
 
+/* ------------------------------------------------------------------ packed float formats (spec oracle only)
+ * rgba_float / rgb_float are the observation buffer of the float requests above, so they are checked by themselves here:
+ * a row of w pixels is 4w (resp. 3w) floats; SRC from it into rgba_float must reproduce exactly those floats (alpha 1.0
+ * for rgb_float) through the scanline reader (untransformed) and through the single-pixel reader (x-mirrored NEAREST,
+ * REPEAT_NORMAL shifted by one pixel), and SRC into rgb_float must store exactly r,g,b and touch nothing else. */
+static void gen_float_packed(void)
+{
+    static const int widths[] = { 1, 2, 3, 5, 8, 13 };
+    char det[256];
+    for (int f = 0; f < 2; f++) for (int wi = 0; wi < 6; wi++) for (int mode = 0; mode < 4; mode++) {
+        pixman_format_code_t sf = f ? PIXMAN_rgb_float : PIXMAN_rgba_float; int nc = f ? 3 : 4, w = widths[wi], h = 3;
+        float *sb = calloc((size_t) w * h * nc + 8, sizeof(float)), *db = calloc((size_t) w * h * 4 + 8, sizeof(float));
+        for (int i = 0; i < w * h * nc; i++) sb[i] = (float) (rng_n(1 << 20)) / (float) (1 << 20);
+        for (int i = 0; i < w * h * 4; i++) db[i] = -7.0f;
+        if (mode == 3) {        /* store into rgb_float from rgba_float */
+            float *tb = calloc((size_t) w * h * 3 + 8, sizeof(float)); for (int i = 0; i < w * h * 3 + 8; i++) tb[i] = -7.0f;
+            float *ab = calloc((size_t) w * h * 4, sizeof(float)); for (int i = 0; i < w * h * 4; i++) ab[i] = (float) (rng_n(1 << 20)) / (float) (1 << 20);
+            pixman_image_t *s = pixman_image_create_bits(PIXMAN_rgba_float, w, h, (uint32_t *) ab, w * 16), *d = pixman_image_create_bits(PIXMAN_rgb_float, w, h, (uint32_t *) tb, w * 12);
+            if (s && d) { pixman_image_composite32(PIXMAN_OP_SRC, s, NULL, d, 0, 1, 0, 0, 0, 1, w, 1);
+                for (int y = 0; y < h; y++) for (int x = 0; x < w; x++) for (int c = 0; c < 3; c++) {
+                    float want = y == 1 ? ab[(y * w + x) * 4 + c] : -7.0f, got = tb[(y * w + x) * 3 + c];
+                    if (memcmp(&want, &got, 4)) { snprintf(det, sizeof det, "store rgb_float w=%d pixel (%d,%d) channel %d: got %a want %a", w, x, y, c, got, want); oracle("float-packed", "rgb_float", det); } }
+                for (int i = 0; i < 8; i++) if (tb[w * h * 3 + i] != -7.0f) oracle("float-packed", "rgb_float", "store wrote past the last row"); }
+            if (s) pixman_image_unref(s); if (d) pixman_image_unref(d); free(tb); free(ab); free(sb); free(db); if (f == 0) continue; else continue; }
+        pixman_image_t *s = pixman_image_create_bits(sf, w, h, (uint32_t *) sb, w * nc * 4), *d = pixman_image_create_bits(PIXMAN_rgba_float, w, h, (uint32_t *) db, w * 16);
+        if (!s || !d) { if (s) pixman_image_unref(s); if (d) pixman_image_unref(d); free(sb); free(db); continue; }
+        pixman_transform_t t; pixman_transform_init_identity(&t);
+        if (mode == 1) { t.matrix[0][0] = -pixman_fixed_1; t.matrix[0][2] = pixman_int_to_fixed(w); pixman_image_set_transform(s, &t); pixman_image_set_filter(s, PIXMAN_FILTER_NEAREST, NULL, 0); }
+        if (mode == 2) { t.matrix[0][2] = pixman_int_to_fixed(1); pixman_image_set_transform(s, &t); pixman_image_set_filter(s, PIXMAN_FILTER_NEAREST, NULL, 0); pixman_image_set_repeat(s, PIXMAN_REPEAT_NORMAL); }
+        pixman_image_composite32(PIXMAN_OP_SRC, s, NULL, d, 0, 1, 0, 0, 0, 1, w, 1);
+        for (int x = 0; x < w; x++) { int sx = mode == 1 ? w - 1 - x : mode == 2 ? (x + 1) % w : x;
+            for (int c = 0; c < 4; c++) {
+                /* rgba_float memory order is r,g,b,a; rgb_float r,g,b */
+                float want = (c == 3 && f) ? 1.0f : sb[(1 * w + sx) * nc + c], got = db[(1 * w + x) * 4 + c];
+                if (memcmp(&want, &got, 4)) { snprintf(det, sizeof det, "fetch %s w=%d mode=%d (0 scanline, 1 x-mirrored per pixel, 2 NORMAL shifted per pixel) pixel %d channel %d: got %a want %a (source pixel %d)", f ? "rgb_float" : "rgba_float", w, mode, x, c, got, want, sx); oracle("float-packed", f ? "rgb_float" : "rgba_float", det); } } }
+        pixman_image_unref(s); pixman_image_unref(d); free(sb); free(db);
+    }
+}
+
 int main(int argc, char **argv)
 {
     if (argc >= 2 && !strcmp(argv[1], "list")) {
@@ -682,6 +721,7 @@ int main(int argc, char **argv)
         g_ops = fopen(argv[7], "w"); g_impl = fopen(argv[8], "w"); g_or = fopen(argv[9], "w"); if (!g_ops || !g_impl || !g_or) return 2;
         g_vals = malloc(sizeof(uint32_t) * 400000); g_set = calloc((size_t) 1 << HBITS, sizeof(uint64_t));
         if (!general) gen_scalar();
+        if (g_part == 0) { long keep = g_line; g_line = 0; gen_float_packed(); g_line = keep; }
         for (int fi = 0; fi < NFORMATS; fi++) {
             pixman_format_code_t c = gen_formats[fi].code;
             if (!pixman_format_supported_source(c)) continue;
